@@ -1,9 +1,9 @@
 (* C17 at full strength for the code as it is NOW: the model instantiated with the flags the generator reads off the source
    (Gen/ConfigSites.v).  `flags_now` is the proof obligation that pins them: if the source loses the up-front wavelength
    validation or the zero-period rejection, this file stops compiling and the check reports a broken obligation. *)
-From Coq Require Import String List Bool ZArith QArith.
+From Coq Require Import Reals String List Bool ZArith QArith.
 From SpdVerif Require Import Base.CfgNumOps Spec.ConfigSpec Gen.ConfigTables Gen.ConfigSites Model.ConfigTypes Model.Config
-  Proofs.C17_rules Proofs.C17_finite Proofs.C17_entry.
+  Model.NumInst Model.Cfg_Composed Proofs.C17_rules Proofs.C17_finite Proofs.C17_entry Proofs.Cfg_composed Proofs.Cfg_composed_builtin.
 Import ListNotations.
 
 Lemma flags_now : cfg_validates_wavelengths = true /\ cfg_rejects_bad_period = true.
@@ -81,45 +81,27 @@ Section Now.
 
   (* the property's first sentence: Ok with nothing non-finite, or Err; never a panic -- under the definedness of what THIS
      configuration computes *)
+  (* the property's first sentence: Ok with nothing non-finite, or Err; never a panic -- the finiteness half under the definedness
+     of what THIS configuration computes (results of its searches, idler angle, index along z, unpoled mismatch not exactly 0) *)
   Theorem now_ok_finite_or_err_at c :
-    scale_order o -> searches_defined_at o K c -> geometry_defined_at o K minpos cfg_rejects_bad_period c ->
+    scale_order o -> search_results_defined_at o K c -> geometry_defined_at o K minpos cfg_rejects_bad_period c ->
     (forall signal, signal_step o K c = Ok signal -> neqb o (o_dkz0 K signal (cfg_pump o c) (cfg_cs0 o c)) (n0 o) = false) ->
     (exists s, try_as_spdc_now c = Ok (s, [])) \/ (exists e, try_as_spdc_now c = Err e).
-  Proof.
-    intros Hlaw Htot Hgeo Hz. pose proof (now_no_panic_at c Hlaw Htot) as Hnp.
-    destruct (try_as_spdc_now c) as [[s nf] | e | st] eqn:Hr.
-    - left. exists s. destruct (cfg_le o c) eqn:Hle.
-      + rewrite (now_le c Hle) in Hr. discriminate.
-      + rewrite (now_steps c Hle) in Hr. rewrite (finite_at num o U K minpos _ c s nf Hgeo Hz Hr). reflexivity.
-    - right. exists e. reflexivity.
-    - discriminate.
-  Qed.
-  Theorem now_ok_finite_or_err c :
-    scale_order o -> searches_total K -> geometry_defined K ->
-    (forall signal, signal_step o K c = Ok signal -> neqb o (o_dkz0 K signal (cfg_pump o c) (cfg_cs0 o c)) (n0 o) = false) ->
-    (exists s, try_as_spdc_now c = Ok (s, [])) \/ (exists e, try_as_spdc_now c = Err e).
-  Proof.
-    intros Hlaw Htot Hgeo. apply now_ok_finite_or_err_at; [exact Hlaw | apply searches_total_at; exact Htot |].
-    apply geometry_defined_every. exact Hgeo.
-  Qed.
-  (* ---- FULL STRENGTH with the repairs in the code (repairs_now).  What is left to assume of the oracles for "never panics": the
-     Snell inverse answers, and the crystal-angle search answers for a signal whose external angle exists *)
-  Definition searches_defined_now (c : spdc_cfg num) : Prop :=
-    (forall b e cs, o_snell_inv K b e cs <> None) /\
-    (forall signal e, signal_step o K c = Ok signal -> is_auto (cc_theta_deg (c_crystal c)) = true -> c_pp c = PCOff ->
-       o_snell_ext K signal (cfg_cs0 o c) = Some e -> o_nm_theta K (erase_theta o (cfg_cs0 o c)) e signal (cfg_pump o c) <> None).
+  Proof. apply validated_ok_finite_or_err_at. Qed.
 
-  Lemma searches_defined_now_at c : searches_defined_now c -> searches_defined_at o K c.
+  (* ---- FULL STRENGTH with the repairs in the code (repairs_now): NEVER panics, for every configuration and EVERY oracle record --
+     a search cannot fail (Cost1d::cost is NaN-safe for every nelder_mead_1d call), the wavelengths are validated first, a signal
+     beyond total internal reflection is an error *)
+  Theorem now_no_panic_full c : scale_order o -> is_panic (try_as_spdc_now c) = false.
   Proof.
-    intros [H1 H2]. split; [exact H1 |]. intros signal Hs. split.
-    - intros Hau Hoff. split.
-      + intros Hf. exfalso. destruct repairs_now as (_ & Ht & _). rewrite Ht in Hf. discriminate.
-      + intros e He. exact (H2 signal e Hs Hau Hoff He).
-    - intros a _ Hf. exfalso. destruct repairs_now as (_ & _ & Hn & _). rewrite Hn in Hf. discriminate.
+    intros Hlaw. apply now_no_panic_at; [exact Hlaw |].
+    destruct repairs_now as (_ & _ & Hn & _).
+    split; [intros Hf; rewrite Hn in Hf; discriminate |]. intros signal _. split.
+    - intros _ _. split.
+      + intros _ Hf. rewrite Hn in Hf. discriminate.
+      + intros Hf. rewrite Hn in Hf. discriminate.
+    - intros a _ Hf. rewrite Hn in Hf. discriminate.
   Qed.
-
-  Theorem now_no_panic_full c : scale_order o -> searches_defined_now c -> is_panic (try_as_spdc_now c) = false.
-  Proof. intros Hlaw H. apply now_no_panic_at; [exact Hlaw | apply searches_defined_now_at; exact H]. Qed.
 
   (* rule 6 (repair of F7f): an external angle of 90 degrees or more is an error *)
   Theorem now_rule_external_range c e :
@@ -152,5 +134,52 @@ Section Now.
     fold (Config.cfg_pump o c). fold (Config.cfg_cs0 o c). rewrite Hlp, Hz, Hn.
     destruct repairs_now as (_ & _ & Hf & _). rewrite Hf. reflexivity.
   Qed.
+  (* rule 6 for an explicit IDLER: its external angle is checked the same way (once the earlier steps succeeded) *)
+  Theorem now_rule_external_range_idler c signal pp nfp cs ic e :
+    cfg_le o c = false -> signal_step o K c = Ok signal -> poling_step o K minpos cfg_rejects_bad_period c signal = Ok (pp, nfp) ->
+    theta_step o K c signal pp = Ok cs -> c_idler c = Param ic ->
+    bc_theta_deg ic = None -> bc_theta_ext_deg ic = Some e -> nltb o (nabs o e) (nQ o 90) = false ->
+    try_as_spdc_now c = Err EExternalRange.
+  Proof.
+    intros Hle Hs Hp Ht Hi Hd He Hr. rewrite (now_steps c Hle). unfold try_as_spdc_steps. rewrite Hs. cbn [bind]. rewrite Hp. cbn [bind fst snd].
+    rewrite Ht. cbn [bind]. unfold idler_step. rewrite Hi. unfold beam_of_cfg. rewrite Hd, He, Hr.
+    destruct repairs_now as (Hx & _). rewrite Hx. reflexivity.
+  Qed.
 End Now.
 Arguments try_as_spdc_now {num} o U K minpos c.
+
+(* ---- the composed instance (Model/Cfg_Composed.v) on the code as it is now *)
+Section ComposedNow.
+  Variable index_of : crystal_setup R -> R -> Vec3.vec -> GI.polarization -> R.
+  Variable snell_inv : beam R -> R -> crystal_setup R -> option R.
+  Variable sd_theta sd_period : @NM.ecost R -> @NM.ecost R -> bool.
+  Local Notation KM := (oracles_of_model index_of snell_inv sd_theta sd_period).
+
+  Lemma now_is_validated U minpos c :
+    try_as_spdc_now R_ops U KM minpos c = try_as_spdc R_ops U KM minpos cfg_rejects_bad_period true c.
+  Proof. unfold try_as_spdc_now. rewrite (proj1 flags_now). reflexivity. Qed.
+
+  Theorem tir_is_error_composed_now U minpos c signal :
+    cfg_le R_ops c = false -> signal_step R_ops KM c = Ok signal ->
+    is_auto (cc_theta_deg (c_crystal c)) = true -> c_pp c = PCOff ->
+    snell_ext_defined index_of signal (cfg_cs0 R_ops c) = false ->
+    try_as_spdc_now R_ops U KM minpos c = Err ETotalReflection.
+  Proof.
+    intros. rewrite now_is_validated. apply tir_is_error_composed with (signal := signal); try assumption.
+    exact (proj1 (proj2 repairs_now)).
+  Qed.
+
+  (* Ok with nothing non-finite, or Err, for the composed instance: the definedness hypotheses of the finiteness clause *)
+  Theorem ok_finite_or_err_composed_now U minpos c :
+    (forall b e cs, snell_inv b e cs <> None) ->
+    angle_costs_defined index_of snell_inv sd_theta sd_period c -> period_costs_defined index_of snell_inv sd_theta sd_period c ->
+    (forall cs l pol, index_of cs l Vec3.ez pol <> 0%R) ->
+    idler_defined_at index_of snell_inv sd_theta sd_period minpos cfg_rejects_bad_period c ->
+    (forall signal, signal_step R_ops KM c = Ok signal ->
+       dkz_c index_of signal (cfg_pump R_ops c) (cfg_cs0 R_ops c) MI.PPOff <> 0%R) ->
+    (exists s, try_as_spdc_now R_ops U KM minpos c = Ok (s, [])) \/ (exists e, try_as_spdc_now R_ops U KM minpos c = Err e).
+  Proof.
+    intros H Hang Hper Hn Hi Hz. rewrite now_is_validated. apply ok_finite_or_err_composed; try assumption.
+    intros Hf. rewrite (proj1 (proj2 repairs_now)) in Hf. discriminate.
+  Qed.
+End ComposedNow.
